@@ -128,6 +128,13 @@ impl Comp {
                 RK::Group(g, bx(self.c(c, fl)))
             }
             Node::Repeat(c, lo, hi, q) => {
+                // `x*+` is parsed by the crate as an atomic group around `x*`, so under the swap-greed flag U the
+                // inner repeat is lazy (PCRE keeps possessive quantifiers greedy; no listed property defines U,
+                // the reference follows the crate's documented "swap greed" reading)
+                if *q == Q::Poss && fl.u {
+                    let body = self.c(c, fl);
+                    return R { id, k: RK::Atomic(bx(R { id, k: RK::Repeat(bx(body), *lo, *hi, Q::Lazy) })) };
+                }
                 let q = match (q, fl.u) {
                     (Q::Greedy, true) => Q::Lazy,
                     (Q::Lazy, true) => Q::Greedy,
